@@ -186,9 +186,7 @@ fn bind_vars<'a, D: DataT, T: 'a + Clone>(
             (ctx, cv),
             move |y, (ctx, cv)| bind_vars(rest, ctx.cons_var(y), cv, proj),
         ),
-        Some((Arg::Fun(arg), rest)) => {
-            bind_vars(rest, ctx.cons_fun(fun_arg(arg, &cv.0)), cv, proj)
-        }
+        Some((Arg::Fun(arg), rest)) => bind_vars(rest, ctx.cons_fun(fun_arg(arg, &cv.0)), cv, proj),
         None => box_once(Ok((ctx, cv.1))),
     }
 }
